@@ -1085,6 +1085,13 @@ impl T {
     }
 }
 
+/// shape counters of the GSUB generator (flushed into the distribution by `run`)
+static SHAPES: Mutex<BTreeMap<String, u64>> = Mutex::new(BTreeMap::new());
+
+fn shape(key: &str) {
+    *SHAPES.lock().unwrap().entry(key.to_string()).or_insert(0) += 1;
+}
+
 struct Lk {
     uni: u32,
     n_lookups: u16,
@@ -1114,6 +1121,7 @@ fn lookup_table(rng: &mut Rng, ty: u16, subs: Vec<T>) -> T {
 }
 
 fn seq_lookup_body(rng: &mut Rng, b: &mut B, n: u16, input_len: u16, k: &Lk) {
+    let mut seen = vec![];
     for _ in 0..n {
         let si = match rng.below(k.den) {
             0 => input_len + 1,
@@ -1126,6 +1134,17 @@ fn seq_lookup_body(rng: &mut Rng, b: &mut B, n: u16, input_len: u16, k: &Lk) {
             1 => 0xFFFF,
             _ => rng.below(k.n_lookups.max(1) as u64) as u16,
         };
+        shape(if seen.contains(&si) {
+            "closure.gen.seq-index.seen-before"
+        } else if si == 0 {
+            "closure.gen.seq-index.zero"
+        } else if si <= input_len {
+            "closure.gen.seq-index.in-input"
+        } else {
+            "closure.gen.seq-index.beyond-input"
+        });
+        shape(if li < k.n_lookups { "closure.gen.lookup-index.valid" } else { "closure.gen.lookup-index.beyond-list" });
+        seen.push(si);
         b.f16(si).f16(li);
     }
 }
@@ -1159,6 +1178,7 @@ fn closure_context(rng: &mut Rng, k: &Lk, chained: bool) -> T {
     let fmt = 1 + rng.below(3);
     let mut t = T::new();
     t.b.f16(fmt as u16);
+    shape(&format!("closure.gen.context.format{fmt}.{}", if chained { "chained" } else { "plain" }));
     if fmt == 3 {
         if chained {
             let nb = rng.below(2) as u16;
@@ -1205,6 +1225,7 @@ fn closure_context(rng: &mut Rng, k: &Lk, chained: bool) -> T {
     t.b.f16(n_sets);
     for _ in 0..n_sets {
         if rng.chance(1, 6) {
+            shape("closure.gen.context.null-rule-set");
             t.b.f16(0);
             continue;
         }
@@ -1239,6 +1260,7 @@ fn closure_context(rng: &mut Rng, k: &Lk, chained: bool) -> T {
 
 fn closure_subtable(rng: &mut Rng, ty: u16, k: &Lk) -> T {
     let mut t = T::new();
+    shape(&format!("closure.gen.subtable.type{ty}"));
     match ty {
         1 => {
             if rng.chance(1, 2) {
@@ -1308,9 +1330,16 @@ fn closure_subtable(rng: &mut Rng, ty: u16, k: &Lk) -> T {
 
 fn closure_lookup(rng: &mut Rng, k: &Lk) -> T {
     let ty = if k.hostile { *rng.pick(&[1u16, 1, 2, 3, 4, 5, 5, 5, 6, 6, 6, 8, 7, 7, 0, 9]) } else { *rng.pick(&[1u16, 1, 2, 3, 4, 5, 5, 5, 6, 6, 6, 8, 7, 7]) };
+    let ext_ty = if k.hostile { *rng.pick(&[1u16, 2, 4, 5, 5, 6, 6, 8, 7, 0]) } else { *rng.pick(&[1u16, 2, 3, 4, 5, 5, 6, 6, 8]) };
+    closure_lookup_of(rng, k, ty, ext_ty)
+}
+
+/// lookup of type `ty` (7: extension subtables of type `ext_ty`)
+fn closure_lookup_of(rng: &mut Rng, k: &Lk, ty: u16, ext_ty: u16) -> T {
     let n = if k.hostile && rng.chance(1, 8) { 0 } else { 1 + rng.below(2) as usize };
+    shape(&format!("closure.gen.lookup.type{ty}{}", if n == 0 { ".no-subtables" } else { "" }));
     if ty == 7 {
-        let ext_ty = if k.hostile { *rng.pick(&[1u16, 2, 4, 5, 5, 6, 6, 8, 7, 0]) } else { *rng.pick(&[1u16, 2, 3, 4, 5, 5, 6, 6, 8]) };
+        shape(&format!("closure.gen.lookup.extension-of-type{ext_ty}"));
         let subs: Vec<T> = (0..n)
             .map(|i| {
                 let inner = closure_subtable(rng, ext_ty.clamp(1, 8), k);
@@ -1332,6 +1361,7 @@ fn closure_lookup(rng: &mut Rng, k: &Lk) -> T {
 fn closure_gsub(rng: &mut Rng, k: &Lk) -> B {
     let mut t = T::new();
     let v11 = rng.chance(1, 3);
+    shape(if v11 { "closure.gen.gsub.v1.1-feature-variations" } else { "closure.gen.gsub.v1.0" });
     t.b.u16(1).f16(if v11 { 1 } else { 0 });
     // empty script list
     let mut sl = T::new();
@@ -1394,6 +1424,288 @@ fn closure_gsub(rng: &mut Rng, k: &Lk) -> B {
         t.off32(fv);
     }
     t.flat()
+}
+
+/// `SubstitutionLookup::read` + `subtables()` + `Subtables::{len, iter, get}`: per subtable the variant /
+/// format or the error
+fn lookup_case(ctx: &mut Ctx, bytes: &[u8]) {
+    use read_fonts::tables::gsub::{SingleSubst, SubstitutionLookup, SubstitutionSubtables};
+    use read_fonts::tables::layout::{ChainedSequenceContext, SequenceContext};
+    let req = format!("hl.lookup {}", hex(bytes));
+    ask(ctx, req, bytes, |ctx| {
+        let lk = match SubstitutionLookup::read(FontData::new(bytes)) {
+            Err(e) => {
+                ctx.count("lookup.read-err");
+                return err_str(&e);
+            }
+            Ok(l) => l,
+        };
+        let subs = match lk.subtables() {
+            Err(e) => {
+                ctx.count(&format!("lookup.subtables-err.{}", &err_str(&e)[..3]));
+                return format!("S:{}", err_str(&e));
+            }
+            Ok(s) => s,
+        };
+        let ext = lk.lookup_type() == 7;
+        ctx.count(if ext { "lookup.extension" } else { "lookup.plain" });
+        fn tags<T>(len: usize, it: impl Iterator<Item = Result<T, ReadError>>, get: impl Fn(usize) -> Result<T, ReadError>, f: impl Fn(&T) -> &'static str) -> (usize, Vec<String>, String) {
+            let v: Vec<String> = it.take(len + 2).map(|r| r.as_ref().map(|t| f(t).to_string()).unwrap_or_else(err_str)).collect();
+            // `get(i)` answers like the i-th item of `iter`
+            for i in 0..len.min(6) {
+                let g = get(i).as_ref().map(|t| f(t).to_string()).unwrap_or_else(err_str);
+                assert!(g == v[i], "Subtables::get({i}) = {g}, iter gives {}", v[i]);
+            }
+            (len, v, get(len).map(|_| "o".to_string()).unwrap_or_else(|e| err_str(&e)))
+        }
+        let (len, v, beyond) = match &subs {
+            SubstitutionSubtables::Single(t) => tags(t.len(), t.iter(), |i| t.get(i), |s| match s {
+                SingleSubst::Format1(_) => "s1",
+                SingleSubst::Format2(_) => "s2",
+            }),
+            SubstitutionSubtables::Multiple(t) => tags(t.len(), t.iter(), |i| t.get(i), |_| "m"),
+            SubstitutionSubtables::Alternate(t) => tags(t.len(), t.iter(), |i| t.get(i), |_| "m"),
+            SubstitutionSubtables::Ligature(t) => tags(t.len(), t.iter(), |i| t.get(i), |_| "l"),
+            SubstitutionSubtables::Reverse(t) => tags(t.len(), t.iter(), |i| t.get(i), |_| "r"),
+            SubstitutionSubtables::Contextual(t) => tags(t.len(), t.iter(), |i| t.get(i), |s| match s {
+                SequenceContext::Format1(_) => "c1",
+                SequenceContext::Format2(_) => "c2",
+                SequenceContext::Format3(_) => "c3",
+            }),
+            SubstitutionSubtables::ChainContextual(t) => tags(t.len(), t.iter(), |i| t.get(i), |s| match s {
+                ChainedSequenceContext::Format1(_) => "c1",
+                ChainedSequenceContext::Format2(_) => "c2",
+                ChainedSequenceContext::Format3(_) => "c3",
+            }),
+        };
+        // the iterator yields exactly `sub_table_count` items
+        ctx.oracle("lookup.iter-count", v.len() == len && len == r16(bytes, 4).unwrap_or(0) as usize, || format!("subtables {}", hex(bytes)), || format!("{} items, count {len}", v.len()));
+        for t in &v {
+            ctx.count(&format!("lookup.subtable.{}", if t.starts_with("e:") { &t[..3] } else { t }));
+        }
+        format!("{len} {} | {beyond}", join(&v))
+    });
+}
+
+// ------------------------------------------------------------------------------------------------
+// collect_features
+
+/// a tag set argument: inverted (`IntSet::all()` minus the tags) or plain
+#[derive(Clone)]
+struct TagSetArg {
+    inv: bool,
+    tags: Vec<u32>,
+}
+
+impl TagSetArg {
+    fn set(&self) -> IntSet<font_types::Tag> {
+        if self.inv {
+            let mut s: IntSet<font_types::Tag> = IntSet::all();
+            for t in &self.tags {
+                s.remove(font_types::Tag::from_u32(*t));
+            }
+            s
+        } else {
+            self.tags.iter().map(|t| font_types::Tag::from_u32(*t)).collect()
+        }
+    }
+    fn req(&self) -> String {
+        let mut t = self.tags.clone();
+        t.sort();
+        t.dedup();
+        format!("{} {}", self.inv as u8, if t.is_empty() { String::new() } else { join(&t) }).trim_end().to_string()
+    }
+}
+
+const FEATURE_TAGS: [&[u8; 4]; 6] = [b"calt", b"kern", b"liga", b"ss01", b"aalt", b"size"];
+
+fn lang_sys_table(rng: &mut Rng, n_features: u16) -> T {
+    let mut t = T::new();
+    t.b.u16(0);
+    let req = match rng.below(4) {
+        0 => 0xFFFF,
+        1 => n_features.wrapping_add(rng.below(2) as u16),
+        _ => rng.below(n_features as u64 + 1) as u16,
+    };
+    t.b.f16(req);
+    let n = rng.below(5) as u16;
+    t.b.f16(n);
+    for _ in 0..n {
+        // feature indices, some beyond the list, some repeated
+        let ix = if rng.chance(1, 6) { n_features + rng.below(3) as u16 } else { rng.below(n_features as u64 + 1) as u16 };
+        t.b.f16(ix);
+    }
+    t
+}
+
+fn script_full(rng: &mut Rng, n_features: u16, sorted: bool) -> T {
+    let mut t = T::new();
+    if rng.chance(2, 3) {
+        let ls = lang_sys_table(rng, n_features);
+        t.off16(ls);
+    } else {
+        t.b.f16(0);
+    }
+    let mut tags: Vec<u32> = (0..rng.below(4)).map(|_| tag32(*rng.pick(&LANG_TAGS))).collect();
+    if sorted {
+        tags.sort();
+        tags.dedup();
+    }
+    t.b.f16(tags.len() as u16);
+    for tg in tags {
+        t.b.u32(tg);
+        let ls = lang_sys_table(rng, n_features);
+        t.off16(ls);
+    }
+    t
+}
+
+/// GSUB / GPOS header + script list + feature list (no lookups)
+fn collect_table(rng: &mut Rng, shared: bool) -> B {
+    let n_features = rng.below(6) as u16;
+    let sorted = rng.chance(2, 3);
+    let mut t = T::new();
+    t.b.u16(1).u16(0);
+    let mut sl = T::new();
+    if shared {
+        // several script records sharing one script table: the visited set
+        let n = 3 + rng.below(4) as u16;
+        sl.b.f16(n);
+        let sh = script_full(rng, n_features, true).flat();
+        for i in 0..n {
+            sl.b.u32(tag32(SCRIPT_TAGS[i as usize % 6]) + (i as u32 / 6)).f16(2 + 6 * n);
+        }
+        sl.b.append(&sh);
+    } else {
+        let mut tags: Vec<u32> = (0..rng.below(5)).map(|_| tag32(*rng.pick(&SCRIPT_TAGS[..8]))).collect();
+        if sorted {
+            tags.sort();
+            tags.dedup();
+        }
+        sl.b.f16(tags.len() as u16);
+        for tg in &tags {
+            sl.b.u32(*tg);
+            let s = script_full(rng, n_features, sorted);
+            sl.off16(s);
+        }
+    }
+    t.off16(sl);
+    let mut fl = T::new();
+    fl.b.f16(n_features);
+    for _ in 0..n_features {
+        fl.b.u32(tag32(*rng.pick(&FEATURE_TAGS)));
+        let mut f = T::new();
+        f.b.u16(0).u16(0);
+        fl.off16(f);
+    }
+    t.off16(fl);
+    let mut ll = T::new();
+    ll.b.u16(0);
+    t.off16(ll);
+    t.flat()
+}
+
+/// more scripts / language systems / feature indices than MAX_SCRIPTS (500), MAX_LANGSYS (2000),
+/// MAX_FEATURE_INDICES (1500); the second language system pushes the u16 feature index counter over
+/// 0xFFFF (after hand/layout.rs)
+fn collect_limits_table() -> Vec<u8> {
+    let mut b = B::new();
+    b.u16(1).u16(0).u16(0).u16(10).u16(0);
+    b.u16(3);
+    for (i, t) in [b"calt", b"kern", b"liga"].iter().enumerate() {
+        b.tag(t).u16(20 + 4 * i as u16);
+    }
+    for _ in 0..3 {
+        b.u16(0).u16(0);
+    }
+    let sl_at = b.len();
+    b.set16(4, sl_at as u16);
+    let n_scripts = 600u16;
+    let n_langs = 2100u16;
+    let s0 = 2 + 6 * n_scripts as usize;
+    let s0_len = 4 + 6 * n_langs as usize;
+    let l0_len = 6 + 2 * 1000;
+    let s1 = s0 + s0_len + l0_len;
+    b.u16(n_scripts);
+    for i in 0..n_scripts {
+        b.u32(0x6161_0000 + i as u32).u16(if i == 1 { s1 as u16 } else { s0 as u16 });
+    }
+    b.u16(s0_len as u16).u16(n_langs);
+    for i in 0..n_langs {
+        b.u32(0x4100_0000 + i as u32).u16(s0_len as u16);
+    }
+    b.u16(0).u16(0xFFFF).u16(1000);
+    for _ in 0..1000u16 {
+        b.u16(3);
+    }
+    b.u16(4).u16(0);
+    b.u16(0).u16(1).u16(65000);
+    for i in 0..65000u16 {
+        b.u16(i % 3);
+    }
+    b.v
+}
+
+fn collect_case(ctx: &mut Ctx, bytes: &[u8], gpos: bool, s: &TagSetArg, l: &TagSetArg, f: &TagSetArg) {
+    use read_fonts::tables::gpos::Gpos;
+    use read_fonts::tables::gsub::Gsub;
+    let req = format!("hl.collect {} {} | {} | {}", hex(bytes), s.req(), l.req(), f.req());
+    ask(ctx, req, bytes, |ctx| {
+        let n_features;
+        let r = if gpos {
+            let t = match Gpos::read(FontData::new(bytes)) {
+                Err(e) => return err_str(&e),
+                Ok(t) => t,
+            };
+            n_features = t.feature_list().map(|f| f.feature_count()).unwrap_or(0);
+            t.collect_features(&s.set(), &l.set(), &f.set())
+        } else {
+            let t = match Gsub::read(FontData::new(bytes)) {
+                Err(e) => return err_str(&e),
+                Ok(t) => t,
+            };
+            n_features = t.feature_list().map(|f| f.feature_count()).unwrap_or(0);
+            t.collect_features(&s.set(), &l.set(), &f.set())
+        };
+        match r {
+            Err(e) => {
+                ctx.count(&format!("collect.err.{}", &err_str(&e)[..3]));
+                err_str(&e)
+            }
+            Ok(out) => {
+                // only indices of the feature list are returned
+                let ok = out.iter().all(|i| i < n_features);
+                ctx.oracle("collect.index-in-list", ok, || format!("collect_features {}", hex(bytes)), || format!("{:?} with {n_features} features", out.iter().collect::<Vec<_>>()));
+                ctx.count(if out.is_empty() { "collect.ok.empty" } else { "collect.ok.some" });
+                ctx.count(&format!("collect.scripts-{}.langs-{}", if s.inv { "inverted" } else { "plain" }, if l.inv { "inverted" } else { "plain" }));
+                let v: Vec<u16> = out.iter().collect();
+                format!("ok {}", join(&v))
+            }
+        }
+    });
+}
+
+fn collect_sets(rng: &mut Rng) -> (TagSetArg, TagSetArg, TagSetArg) {
+    let pick = |rng: &mut Rng, pool: &[&[u8; 4]], n: usize| -> Vec<u32> { (0..n).map(|_| tag32(*rng.pick(pool))).collect() };
+    let s = match rng.below(4) {
+        0 => TagSetArg { inv: true, tags: vec![] },
+        1 => TagSetArg { inv: true, tags: pick(rng, &SCRIPT_TAGS[..8], 2) },
+        2 => TagSetArg { inv: false, tags: pick(rng, &SCRIPT_TAGS[..8], 4) },
+        _ => TagSetArg { inv: false, tags: SCRIPT_TAGS[..8].iter().map(|t| tag32(t)).collect() },
+    };
+    let l = match rng.below(4) {
+        0 => TagSetArg { inv: true, tags: vec![] },
+        1 => TagSetArg { inv: true, tags: pick(rng, &LANG_TAGS, 2) },
+        2 => TagSetArg { inv: false, tags: pick(rng, &LANG_TAGS, 3) },
+        _ => TagSetArg { inv: false, tags: vec![] },
+    };
+    let f = match rng.below(4) {
+        0 => TagSetArg { inv: true, tags: vec![] },
+        1 => TagSetArg { inv: true, tags: pick(rng, &FEATURE_TAGS, 1) },
+        2 => TagSetArg { inv: false, tags: pick(rng, &FEATURE_TAGS, 3) },
+        _ => TagSetArg { inv: false, tags: vec![] },
+    };
+    (s, l, f)
 }
 
 fn closure_case(ctx: &mut Ctx, bytes: &[u8], sets: &[Vec<u16>]) {
@@ -1515,6 +1827,36 @@ pub fn run(ctx: &mut Ctx) {
         more.push((0xFFF0..=0xFFFF).collect());
         closure_case(ctx, &b.v, &more);
     }
+    // collect_features
+    for round in 0..14 * k {
+        let b = collect_table(&mut ctx.rng, round % 4 == 3);
+        let (s, l, f) = collect_sets(&mut ctx.rng);
+        for v in variants_opt(&mut ctx.rng, &b, 6, true, 1) {
+            collect_case(ctx, &v, round % 5 == 4, &s, &l, &f);
+        }
+        for _ in 0..6 {
+            let (s, l, f) = collect_sets(&mut ctx.rng);
+            collect_case(ctx, &b.v, false, &s, &l, &f);
+        }
+    }
+    {
+        let all = TagSetArg { inv: true, tags: vec![] };
+        let lim = collect_limits_table();
+        // the request would be 400 KB: oracles only (no panic, indices inside the feature list)
+        PROGRESS.fetch_add(1, Ordering::Relaxed);
+        let r = catch(|| read_fonts::tables::gsub::Gsub::read(FontData::new(&lim)).and_then(|g| g.collect_features(&all.set(), &all.set(), &all.set())).map(|s| s.iter().collect::<Vec<u16>>()));
+        ctx.oracle("collect.limits", matches!(&r, Ok(Ok(v)) if v.iter().all(|i| *i < 3)), || "collect_limits_table".into(), || format!("{r:?}"));
+    }
+    // lookups: plain and extension, every subtable type
+    const TYPES: [(u16, u16); 17] = [(1, 0), (2, 0), (3, 0), (4, 0), (5, 0), (6, 0), (8, 0), (7, 1), (7, 2), (7, 4), (7, 5), (7, 6), (7, 8), (7, 7), (7, 0), (0, 0), (9, 0)];
+    for round in 0..17 * k {
+        let lk = Lk { uni: 12, n_lookups: 3, n_classes: 2, den: 12, hostile: round % 2 == 0 };
+        let (ty, ext_ty) = TYPES[round % 17];
+        let b = closure_lookup_of(&mut ctx.rng, &lk, ty, ext_ty).flat();
+        for v in variants_opt(&mut ctx.rng, &b, 6, true, 2) {
+            lookup_case(ctx, &v);
+        }
+    }
     // script lists and script tags
     for _ in 0..12 * k {
         let b = script_list(&mut ctx.rng);
@@ -1529,6 +1871,10 @@ pub fn run(ctx: &mut Ctx) {
         }
     }
     stags_cases(ctx);
+    let shapes = std::mem::take(&mut *SHAPES.lock().unwrap());
+    for (key, n) in shapes {
+        ctx.count_n(&key, n);
+    }
     // a few long tables: the full size range in every format (32768 words for 8 bit deltas is left to
     // the `layout` group; 2 bit deltas need 8192 words), hostile end < start with trailing data
     for (s, e, fmt) in [(0u16, 999u16, 1u16), (0, 499, 2), (0, 299, 3), (300, 0, 3)] {
